@@ -18,8 +18,35 @@ ASSUMPTIONS = ["header/directory/LZX round trips are not theorems yet (only ENCI
 RULE = ("chm.plan: random plans from gen/vgen/chm.py; every listed file is extracted in listing order and again in reverse order (decoding restarts at reset points); "
         "non-trivial = at least one member with data in the compressed section; distinct by file bytes")
 
+def plan_case(case, order, family="chm.plan"):
+    nm = case["meta"]["order"][0]
+    mem = case["members"]
+    lines = S.file_lines(case) + ["new chm", f"open i0 {nm}"]
+    lines += [f"extract i0 h0 {j} o{j}" for j in order]
+    lines += ["close i0 h0", "destroy i0"]
+    return lines, dict(family=family, order=order, plan=S.short_meta(case),
+                       members={(m["name"].hex() or "="): dict(sec=m["section"], off=m["offset"], len=len(m["data"]), digest=digest(m["data"])) for m in mem},
+                       sysfiles=[s.hex() for s in case["meta"]["expect"].get("sysfiles", [])],
+                       nontrivial=any(m["section"] == 1 and m["data"] for m in mem))
+
 def generate(ctx):
     rng = ctx.rng
+    # directed: the decoder is (re)initialised for a file beyond the first reset interval, for every
+    # reset-table variant (normal, 4-byte entries, missing -> SpanInfo fallback, short table)
+    for rt in ["missing", "short", "normal", "entry4"] * (1 if ctx.tier == "quick" else 12):
+        for _ in range(20):
+            try:
+                case = S.vgen_case(rng, "chm", "medium", rtable=rt)
+            except Exception:
+                continue
+            if case["meta"].get("lzx", {}).get("reset_intervals", 0) >= 2: break
+        else:
+            continue
+        mem = case["members"]
+        # listing index of compressed members, farthest into the stream first
+        far = sorted((j for j, m in enumerate(mem) if m["section"] == 1 and m["data"]), key=lambda j: -mem[j]["offset"])
+        order = far + [j for j in range(len(mem)) if j not in far]
+        yield plan_case(case, order, "chm.restart-" + rt)
     n = 40 if ctx.tier == "quick" else 1200
     k = 0
     while k < n:
@@ -48,7 +75,7 @@ def generate(ctx):
 def judge(ctx, meta, impl, model):
     fs = []
     crash = [b[0] for b in impl if b[0].startswith(("CRASH", "TIMEOUT"))]
-    if meta["family"] == "chm.plan":
+    if meta["family"].startswith(("chm.plan", "chm.restart")):
         if crash: return [Finding("violation", "well-formed CHM: implementation " + crash[0])]
         op = next((b for b in impl if b[0].startswith("open")), None)
         if op is None or " st=0" not in op[0]:
